@@ -12,7 +12,7 @@ for c in m["checks"]:
     if ids and pid not in ids:
         continue
     cmd = c["quick_cmd"] if tier == "quick" else c.get("thorough_cmd", c["quick_cmd"])
-    ev = c["evidence_file"]
+    ev = os.path.join(V, "evidence", os.path.basename(c["evidence_file"]))   # this copy's evidence dir (vp run snapshots)
     if os.path.exists(ev):
         os.remove(ev)
     t0 = time.time()
